@@ -914,7 +914,11 @@ fn op_aligned(ctx: &mut Ctx, sc: &mut dyn ScopeOps, orig: Option<&dyn ScopeOps>,
     let scoped = ctx.rng.chance(1, 2);
     // raising the alignment of an allocated, unclaimed arena can equally be done by value:
     // `scope.by_value().with_settings::<N>()` (same model operation: align_to, nothing on exit)
-    let by_value = !scoped && n >= outer && sc.x_dump().cur.is_some() && ctx.rng.chance(1, 2);
+    // (`by_value()` on an UNALLOCATED arena first acquires the minimum chunk — `make_allocated`, the model's `reserve 0`;
+    // the panicking form is only used when no base-allocator failure can hit it)
+    let d0 = sc.x_dump();
+    let bv_unallocated = d0.cur.is_none() && !d0.claimed && !ctx.fail_injected;
+    let by_value = !scoped && n >= outer && (d0.cur.is_some() || bv_unallocated) && ctx.rng.chance(1, 2);
     let panics = !by_value && ctx.rng.chance(1, 8);
     if by_value {
         ctx.br("by_value().with_settings");
@@ -952,6 +956,14 @@ fn op_aligned(ctx: &mut Ctx, sc: &mut dyn ScopeOps, orig: Option<&dyn ScopeOps>,
         // region is kept free of chunk switches: entry alignment check plus at most one small allocation
         drop(body);
         let mut body_bv = |inner: &mut dyn ScopeOps| {
+            if bv_unallocated {
+                ctx.br("by_value() on an unallocated arena");
+                ctx.ma_override = Some(outer);
+                let d = log_op(ctx, inner, "reserve 0 0", "unit");
+                if d.cur.is_none() {
+                    ctx.oracle("C03", "by_value() on an unallocated arena did not acquire a chunk".into());
+                }
+            }
             let d = log_op(ctx, inner, &enter, "unit");
             if let Some(i) = d.cur {
                 if d.fwd[i].pos % n != 0 {
@@ -982,6 +994,10 @@ fn op_aligned(ctx: &mut Ctx, sc: &mut dyn ScopeOps, orig: Option<&dyn ScopeOps>,
         ctx.kill_from(mark);
     }
     let d = log_op(ctx, sc, if scoped { "scoped_aligned_exit" } else { "aligned_exit" }, "unit");
+    if by_value && bv_unallocated && d.cur.is_none() {
+        // the chunk acquired by `by_value()` belongs to the arena: it must still be there (and reusable) afterwards
+        ctx.oracle("C03", "by_value() on an unallocated arena: after the by-value scope is gone the arena owns no chunk (the chunk it acquired is orphaned)".into());
+    }
     if let Some(i) = d.cur {
         if d.fwd[i].pos % outer != 0 {
             ctx.oracle("C18", format!("after leaving the region the position {:#x} is not a multiple of the outer minimum alignment {outer}", d.fwd[i].pos));
